@@ -128,6 +128,7 @@ func TestVerif_C19_Blip(t *testing.T) {
 		}
 	}()
 	knownBlank := kit.Known("C19", vfC19SigBlankObject)
+	knownBlipEscaped := kit.Known("C19", vfC19SigBlipEscaped)
 	rapid.Check(t, func(rt *rapid.T) {
 		defer vfC19Inconclusive(rt, rec)
 		var ops []string
@@ -172,6 +173,14 @@ func TestVerif_C19_Blip(t *testing.T) {
 					wire = vfC19WithExtras(body, "_exp", exp)
 				}
 				text, esc := vfC19Ser(wire, st)
+				if exp != nil && !strings.Contains(text, `"_exp"`) {
+					classes = append(classes, "_exp-key-escaped")
+					if knownBlipEscaped {
+						// listed finding: the rev handler looks for reserved names in the raw bytes
+						rec.Excluded(vfC19SigBlipEscaped)
+						text, esc = vfC19Ser(wire, &vfC19Style{Compact: true})
+					}
+				}
 				r.Text, r.Escaped = text, esc
 				rev, history := "", ""
 				if w == "blip" {
@@ -260,6 +269,26 @@ func TestVerif_C19_Blip(t *testing.T) {
 		})
 		rec.Case(strings.Join(sigParts, " | "), nontrivial, classes...)
 	})
+	if knownBlipEscaped {
+		vfC19RegressBlipEscaped(envs[0])
+	}
+}
+
+// vfC19RegressBlipEscaped: minimal reproductions of "blip-escaped-reserved-key-bypasses-raw-prefilter".
+func vfC19RegressBlipEscaped(b *vfC19Blip) {
+	var seen []string
+	if res := b.pushRev("c19-regress-esc-id", "1-abc", "", []byte(`{"_i\u0064":"other","a":1}`)); res.ErrCode == "" {
+		seen = append(seen, "rev body {\"_i\\u0064\":\"other\",\"a\":1} is accepted although validateBlipBody documents rejection of _id")
+	}
+	if res := b.pushRev("c19-regress-esc-exp", "1-abc", "", []byte(`{"_\u0065xp":4102444800,"a":1}`)); res.ErrCode == "" {
+		g := b.do("GET", "/c19-regress-esc-exp", "", nil)
+		if v, err := vfC19Decode(g.Body); err == nil && v.Kind == 'o' && v.Get("_exp") != nil {
+			seen = append(seen, "rev body {\"_\\u0065xp\":4102444800,\"a\":1} keeps _exp in the stored body: GET returns "+strings.TrimSpace(vfC19Clip(string(g.Body))))
+		}
+	}
+	if len(seen) > 0 {
+		kit.KnownFinding("C19", vfC19SigBlipEscaped, strings.Join(seen, "; "))
+	}
 }
 
 // ---------------------------------------------------------------------------------------------
